@@ -5,7 +5,7 @@
    because its only use is `other = self.copy()`.  The order in which a product registers its
    variables is not modelled (variable tables are compared as sets).  No proofs in this file. *)
 From Coq Require Import List ZArith QArith Qcanon Bool Arith.
-From Dimod Require Import Base.Util Model.Poly Model.Sym Model.OpsLang Gen.Gen_Ops.
+From Dimod Require Import Base.Util Model.Poly Model.Sym Model.OpsLang Gen.Gen_Ops Gen.Gen_AddVar.
 Import ListNotations.
 Open Scope Qc_scope.
 
@@ -71,8 +71,49 @@ Definition product_bqm tbl (x y : mdl) : res mdl :=
       end
   end.
 
+(* ---------- add_variable on an existing label, as read from the source (Gen/Gen_AddVar.v) ---------- *)
+(* the value a guard lets through to the comparison *)
+Definition av_applies (c : av_cond) (x : option Qc) : option Qc :=
+  match x with
+  | None => None
+  | Some q => match c with AvGiven => Some q | AvTruthy => if qis0 q then None else Some q end
+  end.
+
+Definition av_have (b : av_bound) (have : vinfo) : Qc := match b with AvLower => vi_lb have | AvUpper => vi_ub have end.
+Definition av_arg (b : av_bound) (lb ub : option Qc) : option Qc := match b with AvLower => lb | AvUpper => ub end.
+
+Fixpoint run_av_checks (l : list (av_bound * av_cond * exnk)) (have : vinfo) (lb ub : option Qc) : option err :=
+  match l with
+  | [] => None
+  | (b, c, x) :: l' =>
+      match av_applies c (av_arg b lb ub) with
+      | Some q => if Qc_eqb q (av_have b have) then run_av_checks l' have lb ub else Some (err_of x)
+      | None => run_av_checks l' have lb ub
+      end
+  end.
+
+(* qm.add_variable(vt, label, lower_bound=lb, upper_bound=ub) for a label the model has as `have`:
+   None = accepted (nothing changes, the label is returned) *)
+Definition gen_addvar_existing (have : vinfo) (vt : vartype) (lb ub : option Qc) : option err :=
+  if negb (vartype_eqb (vi_vt have) vt) then Some (err_of gen_addvar_vt_exn)
+  else if existsb (vartype_eqb vt) gen_addvar_bounds_skip then None
+  else run_av_checks gen_addvar_checks have lb ub.
+
+(* QM.__mul__ re-adds every variable of both operands with both bounds explicit *)
+Definition gen_mul_err (have new : vinfo) : option err :=
+  gen_addvar_existing have (vi_vt new) (Some (vi_lb new)) (Some (vi_ub new)).
+
+(* the specification as a boolean (for the oracle of the check): same vartype, and for INTEGER / REAL
+   every bound that is passed is the existing one *)
+Definition agrees_b (given : option Qc) (have : Qc) : bool :=
+  match given with Some q => Qc_eqb q have | None => true end.
+
+Definition redecl_ok_b (have : vinfo) (vt : vartype) (lb ub : option Qc) : bool :=
+  vartype_eqb (vi_vt have) vt &&
+  match vt with BINARY | SPIN => true | _ => agrees_b lb (vi_lb have) && agrees_b ub (vi_ub have) end.
+
 Definition product_qm tbl (x y : mdl) : res mdl :=
-  match merge mul_err (m_tab x) (m_tab y) with
+  match merge gen_mul_err (m_tab x) (m_tab y) with
   | Err e => Err e
   | Ok t => if real_interaction t (m_poly x) (m_poly y) then Err EValueError
             else if unexpected_pair tbl (tvt t) (m_poly x) (m_poly y) then Err ETypeError
